@@ -110,9 +110,9 @@ def run(res, tier, seed, replay):
         if missing:
             res.notes.append("no accepted honest transcript (grid not exercised) for: " + ", ".join(missing))
             res.cov["grid_missing"] = missing
-    for g, s, out in allrecs:
-        if "REC " not in out:
-            continue
+    # all records of all seeds go through one pool of driver processes
+    recout = "\n".join(out for g, s, out in allrecs if "REC " in out)
+    for g, s, out in ([("rec", seed, recout)] if recout else []):
         mism = par_correspond(res, out, drv)
         for m in mism[:10]:
             mm = m.split(" :: ", 1)
